@@ -17,7 +17,9 @@ class LoggerModel:
     """logging.Logger: every method is a no-op (arguments are not inspected)."""
 
     def getattr(self, it, ref, name):
-        return VNative(_noop, "logger." + name)
+        n = VNative(_noop, "logger." + name)
+        n.accepts_none = True
+        return n
 
     def isinstance(self, it, ref, cls):
         return False
@@ -27,6 +29,7 @@ def install(reg):
     E = reg.externals
     for fn in ("debug", "info", "warning", "error", "exception", "critical", "log"):
         E[f"logging.{fn}"] = VNative(_noop, f"logging.{fn}")
+        E[f"logging.{fn}"].accepts_none = True   # arguments are only formatted into the message
 
     def get_logger(it, a, k):
         return VRef(it.path.alloc(Cell(cls="logging.Logger", native=LoggerModel())), "logging.Logger")
